@@ -85,6 +85,28 @@ func checkProgram(src string) {
 	// involved in it.
 	u := unoptimizedTwin(o, inputs)
 	fu := lib.Functions(u.BC)
+	// translation validation on the whole-VM model: the optimized program is the twin with every function
+	// relocated (checkReloc passes) — then, by Tengo.Props.C03VM, the two programs run alike on the VM model for
+	// EVERY input, budget and fuel, not only on the run below
+	if line, ok := lib.RelocLine(u.BC, o.BC, 24000); ok {
+		ans, err := drv.Ask(line)
+		if err != nil {
+			fatal(err)
+		}
+		if strings.HasPrefix(ans, "ok ") {
+			f := strings.Fields(ans)
+			res.Count("reloc", line, f[len(f)-1] != "0")
+			if f[len(f)-1] != "0" {
+				res.Dist("reloc-checked-with-moved-code")
+			}
+		} else {
+			res.Count("reloc", line, true)
+			res.Disagree(lib.Disagreement{Stream: "reloc", Input: replayInput{Source: src}, Model: ans,
+				Impl: "checkReloc(twin, optimized) must pass: the real optimizer's output is not the twin with its instructions relocated"})
+		}
+	} else {
+		res.Dist("reloc-skipped-constant-or-size")
+	}
 	var tu, to []string
 	idxU, idxO := fnIndex(fu), fnIndex(fo)
 	ru := lib.RunBytecode(u, lib.RunOpts{Probe: func(v *tengo.VM, fn *tengo.CompiledFunction, ip, sp, bp, fi int, a int64) {
